@@ -99,23 +99,42 @@ func C05(run *ev.Run, tier string) map[string]interface{} {
 		keys = append(keys, hKey("b2"))
 	}
 	conds := c05Conds(thorough)
-	cfg := drv.TableCfg{Hash: "h", HashT: "S", Billing: "PAY_PER_REQUEST", GSI: []drv.IndexCfg{{Name: "gsi", Hash: "g", HashT: "S"}}}
-	u := Universe{Keys: map[string][]val.Item{"tab": keys}}
+	gsi := []drv.IndexCfg{{Name: "gsi", Hash: "g", HashT: "S"}}
+	type sys struct {
+		name string
+		cfg  drv.TableCfg
+		keys []val.Item
+	}
+	// besides string keys: number sort keys that are neighbours beyond float64's 53 bits and composite
+	// keys sharing the partition (the bystander is as close to the target as a key can be). No
+	// number HASH key: the observation queries every partition with `h = :hv`, which the interpreter
+	// evaluates in float64 (C12's recorded finding, not a matter of this property)
+	systems := []sys{
+		{"C05", drv.TableCfg{Hash: "h", HashT: "S", Billing: "PAY_PER_REQUEST", GSI: gsi}, keys},
+		{"C05/HR(S,N)", drv.TableCfg{Hash: "h", HashT: "S", Range: "r", RangeT: "N", Billing: "PAY_PER_REQUEST", GSI: gsi}, []val.Item{{"h": val.S("p"), "r": val.N("1234567890123456789")}, {"h": val.S("p"), "r": val.N("1234567890123456788")}}},
+		{"C05/HR(S,S)", drv.TableCfg{Hash: "h", HashT: "S", Range: "r", RangeT: "S", Billing: "PAY_PER_REQUEST", GSI: gsi}, []val.Item{hrKey("p", "x"), hrKey("p", "x-")}},
+	}
 	total, per := exploreBoth(run, func(newImpl func() drv.Driver, dn string) []mc.Sys {
-		return []mc.Sys{{
-			Name:      "C05",
-			NewImpl:   newImpl,
-			Init:      []drv.Op{{K: drv.KCreate, Table: "tab", Cfg: &cfg}},
-			Alphabet:  c05Alphabet(keys, conds, dn == "v2"),
-			Observe:   func(m *model.Model) []drv.Op { return ObserveOps(m, u) },
-			SigOf:     mc.DefaultSig("C05"),
-			MaxStates: 500000,
-			Deadline:  dl,
-		}}
+		var out []mc.Sys
+		for _, sy := range systems {
+			sy := sy
+			u := Universe{Keys: map[string][]val.Item{"tab": sy.keys}}
+			out = append(out, mc.Sys{
+				Name:      sy.name,
+				NewImpl:   newImpl,
+				Init:      []drv.Op{{K: drv.KCreate, Table: "tab", Cfg: &sy.cfg}},
+				Alphabet:  c05Alphabet(sy.keys, conds, dn == "v2"),
+				Observe:   func(m *model.Model) []drv.Op { return ObserveOps(m, u) },
+				SigOf:     mc.DefaultSig("C05"),
+				MaxStates: 500000,
+				Deadline:  dl,
+			})
+		}
+		return out
 	})
 	cov := total.Coverage()
 	cov["per_system"] = per
-	cov["alphabet"] = "Put/Upd/Del on every key x conditions {attribute_exists(h), attribute_not_exists(h), a=:one, a<>:one, a=:one AND attribute_exists(b), NOT a=:one, ...} x ReturnValuesOnConditionCheckFailure {none, ALL_OLD (SDK v2 only: the v1 request type has no such field)}, plus unconditional Put/Del that build every combination of target and bystander items; one GSI"
+	cov["alphabet"] = "Put/Upd/Del on every key x conditions {attribute_exists(h), attribute_not_exists(h), a=:one, a<>:one, a=:one AND attribute_exists(b), NOT a=:one, ...} x ReturnValuesOnConditionCheckFailure {none, ALL_OLD (SDK v2 only: the v1 request type has no such field)}, plus unconditional Put/Del that build every combination of target and bystander items; one GSI; key schemas H(S) and HR(S,N) with number keys that are neighbours beyond 2^53, HR(S,S) with keys sharing the partition"
 	cov["oracle"] = "reference evaluation of the condition on the target item only; success iff true; on false: ConditionalCheckFailedException, full observation (table and index) unchanged, carried Item = unchanged target when requested"
 	return cov
 }
